@@ -338,6 +338,9 @@ def run(ctx) -> None:
                 ctx.check("R3", c_env.equiv((~N & env).project([a_none, a_true])), f"update: --{which}-message is used exactly when it was given (is not None)",
                           f"cli.update: a given --{which}-message is not always used",
                           f"`{txt}` is chosen when {cond.to_dnf()}; required: exactly when `{opt} is not None`", loc=upd.loc(at), witness={f"--{which}-message": ""})
+            elif "cfg." in txt or any(isinstance(x, ast.Name) and x.id.endswith("_message") for x in ast.walk(e)):
+                ctx.bad("R3", f"cli.update: the {which} message is built from another template", f"`{txt[:80]}` is neither cfg.{opt} nor the --{which}-message option",
+                        loc=upd.loc(at), what=f"update: {which} message comes from its own template")
             else:
                 raise AnalysisError(f"C12/R3: {which} message template alternative not enumerated: `{txt[:80]}`")
 
